@@ -486,9 +486,7 @@ CONTROLS = ["entry_without_unique_peptide", "worse_peptide", "shared_counted", "
 # ------------------------------------------------------------------ the check
 
 def model_checks(ctx):
-    """All TLC runs of role (M).  The TLC processes run concurrently; the bookkeeping of ctx.model_check (not thread
-    safe) is then done sequentially on the finished results (as in drivers/c13.py)."""
-    import engine.core as core
+    """All TLC runs of role (M), started together."""
     jobs = [("Picked_quick.cfg", dict(note="<= 4 rows, <= 3 pairs, kinds single/swap, unmapped peptides"), 6),
             ("Picked_kinds.cfg", dict(note="<= 3 rows, <= 3 pairs, kinds single/same/sub/swap, unmapped peptides"), 3)]
     if not ctx.quick:
@@ -505,16 +503,9 @@ def model_checks(ctx):
         ("Picked_mut3.cfg", dict(expect_violation="OnePerPair", note="seeded fault: pair not collapsed"), 1),
         ("Picked_mut4.cfg", dict(expect_violation="BestPeptide", note="seeded fault: worst peptide kept"), 1),
         ("Picked_cov.cfg", dict(coverage=True, note="action coverage (<= 3 rows, 2 pairs)"), 2)]
-    with ThreadPoolExecutor(max_workers=len(jobs)) as ex:
-        done = list(ex.map(lambda j: run_tlc("Picked", j[0], workers=j[2], parse_prints=False, timeout=3000,
-                                             coverage=bool(j[1].get("coverage"))), jobs))
-    cache = {j[0]: r for j, r in zip(jobs, done)}
-    orig = core.run_tlc
-    core.run_tlc = lambda module, cfg, **kw: cache[cfg]
-    try:
-        res = {j[0]: ctx.model_check("Picked", j[0], **j[1]) for j in jobs}
-    finally:
-        core.run_tlc = orig
+    with ThreadPoolExecutor(max_workers=len(jobs)) as ex:      # ctx.model_check serialises its own bookkeeping
+        out = list(ex.map(lambda j: ctx.model_check("Picked", j[0], workers=j[2], parse_prints=False, timeout=3000, **j[1]), jobs))
+    res = {j[0]: r for j, r in zip(jobs, out)}
     ctx.require_actions(res["Picked_cov.cfg"], ["Strip", "Map", "Guard", "Pair", "Best", "Conf"])
 
 def run(ctx):
